@@ -460,10 +460,34 @@ func enumC19(tier string, shard, nshards int, visit func(any) bool) (string, boo
 	return fmt.Sprintf("all well-formed histories of length <= %d over 2 URIs x 3 texts x 2 positions", maxLen), ok
 }
 
+// asTransported is the text as a language server receives it: the protocol carries texts in
+// JSON, which cannot hold bytes that are not UTF-8 (each becomes U+FFFD). What the server is
+// compared with is the analysis of *that* text.
+func asTransported(text string) string {
+	b, err := json.Marshal(text)
+	if err != nil {
+		return text
+	}
+	var out string
+	if json.Unmarshal(b, &out) != nil {
+		return text
+	}
+	return out
+}
+
+func transportTexts(ops []LspOp) {
+	for i := range ops {
+		for j := range ops[i].Texts {
+			ops[i].Texts[j] = asTransported(ops[i].Texts[j])
+		}
+	}
+}
+
 func checkC19(cc any) *ev.Verdict {
 	c := cc.(*C19Case)
 	v := &ev.Verdict{}
 	inflight(c)
+	transportTexts(c.Ops)
 	st := verifapi.LspInitialState()
 	latest := map[string]string{}
 	view := map[string]string{} // uri -> last published diagnostics
